@@ -88,6 +88,15 @@ VAtomLoc(s, e) ==
        IN e.byLabel[k][2] = Sum(1)
   THEN <<"ok", s>> ELSE <<"atom-locations", s>>
 
+(* occupancy_by_site_type: e.byLabel[k] = <<label, round(value * T * n_sites_with_label)>> = sum of the occupancy numerators *)
+VOccType(s, e) ==
+  IF \A k \in DOMAIN e.byLabel :
+       LET la == e.byLabel[k][1]
+           RECURSIVE Sum(_)
+           Sum(i) == IF i > Len(e.labels) THEN 0 ELSE (IF e.labels[i] = la THEN OccNum(s.hist, i - 1) ELSE 0) + Sum(i + 1)
+       IN e.byLabel[k][2] = Sum(1)
+  THEN <<"ok", s>> ELSE <<"occupancy-by-site-type", s>>
+
 VJumpDiff(s, e) ==
   LET rows == JumpRowsOfHist(s.hist, e.m) IN
   IF e.num = JumpDistSum(rows, 1, e.sites, e.G, e.N, e.R) THEN <<"ok", s>> ELSE <<"jump-diffusivity", s>>
@@ -152,6 +161,7 @@ Verdict(s, e) ==
     [] e.act = "Edges" -> VEdges(s, e)
     [] e.act = "Occ" -> VOcc(s, e)
     [] e.act = "AtomLoc" -> VAtomLoc(s, e)
+    [] e.act = "OccType" -> VOccType(s, e)
     [] e.act = "JumpDiff" -> VJumpDiff(s, e)
     [] e.act = "Split" -> VSplit(s, e)
     [] e.act = "Rates" -> VRates(s, e)
